@@ -2154,10 +2154,14 @@ def expr_is_float_lower(op1, op2):
     sign1, sign2 = op1.msb(), op2.msb()
     magn1, magn2 = op1[:-1], op2[:-1]
     return ExprCond(sign1 ^ sign2,
-                    # Sign different, only the sign matters
-                    sign1, # sign1 ? op1 < op2 : op1 >= op2
-                    # Sign equals, the result is inversed for negatives
-                    sign1 ^ (expr_is_unsigned_lower(magn1, magn2)))
+                    # Sign different: op1 < op2 iff op1 is the negative one,
+                    # unless both are zeros (-0.0 == +0.0)
+                    sign1 & ExprCond(magn1 | magn2, ExprInt(1, 1), ExprInt(0, 1)),
+                    # Sign equals: compare the magnitudes, the other way
+                    # round for negatives (equal values are not lower)
+                    ExprCond(sign1,
+                             expr_is_unsigned_lower(magn2, magn1),
+                             expr_is_unsigned_lower(magn1, magn2)))
 
 
 def expr_is_float_equal(op1, op2):
